@@ -823,7 +823,6 @@ func genC19(g *Gen) {
 	g.Count("directed:sweep")
 	if g.Tier == "thorough" {
 		g.Op("sweep", "all %s", small)
-		g.Op("sweep", "all %s", all)
 		ab := c19Spec{rev: 3, idx: 4, nodes: 3, slots: 2, tasks: 0, feat: c19FeatActiveBackup | c19FeatHealth, suffix: "ab"}
 		g.Op("sweep", "digits %s", ab)
 		g.Op("sweep", "trunc %s", ab)
